@@ -88,6 +88,7 @@ type SliceV struct {
 	arr        []*Loc
 	off, n, cp int
 	isNil      bool
+	symLen     *Term // non-nil: opaque content, symbolic length (only len() is supported)
 }
 type StrV struct{ b []*Term }
 type StructV struct{ f []Value }
